@@ -81,6 +81,142 @@ def w_prof(w, p):
     w.lst(p["vagg"], lambda v: (w.z(v[0]), w.z(v[1]), w.z(v[2])))
 
 
+# ---------------------------------------------------------------------------- the statement of the read path
+STMT_RE = re.compile(
+    r"^WITH fp as \( (?P<fp>.*?)\),raw as \( SELECT arrayMap\(x -> \((?P<proj>.*?)\), tree\) as tree, functions FROM (?P<table>\S+) "
+    r"WHERE \(\(timestamp_ns\) >= \((?P<from>-?\d+)\)\) and \(\(timestamp_ns\) < \((?P<to>-?\d+)\)\) and \(fingerprint IN \(fp\)\) and "
+    r"\((?P<match>.*)\)\),pre_joined as \( SELECT rtree FROM raw array JOIN raw\.tree as rtree \),joined as \( SELECT \((?P<out>.*?)\) as tree "
+    r"FROM pre_joined GROUP BY (?P<group>.*?) ORDER BY (?P<order>.*?) LIMIT (?P<limit>\d+)\) SELECT \(select (?P<agg1>\w+)\(tree\) from joined\) "
+    r"as _tree, \(select (?P<agg2>\w+)\(functions\) from raw \) as _functions$", re.S)
+PROJ_ITEM = re.compile(r"x\.(\d+)|\(arrayFirst\(y -> y\.(\d+) == '((?:[^'\\]|\\.)*)', x\.(\d+)\) as af\)\.(\d+)|af\.(\d+)")
+AGGS = {"groupArray": "GroupArray", "groupUniqArrayArray": "GroupUniqArrayArray"}
+
+
+def parse_stmt(text):
+    """-> dict (the syntax tree of coq/model/ProfSql.v merge_stmt) or None when the text is outside the modelled fragment.
+    Untrusted: the check has Coq render the tree and compare it with the text byte for byte."""
+    m = STMT_RE.match(text)
+    if not m:
+        return None
+    types, proj, pos = [], [], 0
+    src = m.group("proj")
+    while pos < len(src):
+        if proj:
+            if not src.startswith(", ", pos):
+                return None
+            pos += 2
+        it = PROJ_ITEM.match(src, pos)
+        if not it:
+            return None
+        pos = it.end()
+        if it.group(1):
+            proj.append("TField %s" % it.group(1))
+        elif it.group(2):
+            if "\\" in it.group(3):
+                return None
+            if it.group(3) not in types:
+                types.append(it.group(3))
+            proj.append("TFirst %d %s %s %s" % (types.index(it.group(3)), it.group(4), it.group(2), it.group(5)))
+        else:
+            proj.append("TAf %s" % it.group(6))
+    out = []
+    for g in m.group("out").split(", "):
+        a = re.fullmatch(r"rtree\.(\d+)", g)
+        b = re.fullmatch(r"sum\(rtree\.(\d+)\)", g)
+        if a:
+            out.append("GKey %s" % a.group(1))
+        elif b:
+            out.append("GSum %s" % b.group(1))
+        else:
+            return None
+    def fields(txt):
+        r = []
+        for g in txt.split(", "):
+            a = re.fullmatch(r"rtree\.(\d+)", g)
+            if not a:
+                return None
+            r.append(a.group(1))
+        return r
+    group, order = fields(m.group("group")), fields(m.group("order"))
+    if group is None or order is None or m.group("agg1") not in AGGS or m.group("agg2") not in AGGS:
+        return None
+    return {"fp": m.group("fp"), "table": m.group("table"), "match": m.group("match"), "types": types, "proj": proj,
+            "from": int(m.group("from")), "to": int(m.group("to")), "out": out, "group": group, "order": order,
+            "limit": int(m.group("limit")), "agg1": AGGS[m.group("agg1")], "agg2": AGGS[m.group("agg2")]}
+
+
+def stmt_key(st):
+    """everything but the time window"""
+    return json.dumps({k: v for k, v in st.items() if k not in ("from", "to")}, sort_keys=True)
+
+
+def cstr(x):
+    return "(%s)%%string" % vcheck.coq_string(x)
+
+
+def stmt_coq(st):
+    z = lambda v: "(%d)%%Z" % v
+    return ("{| ms_fp := %s; ms_table := %s; ms_matchers := %s; ms_types := [%s]; ms_proj := [%s]; ms_from := %s; ms_to := %s; "
+            "ms_out := [%s]; ms_group := [%s]; ms_order := [%s]; ms_limit := %s; ms_tree_agg := %s; ms_fn_agg := %s |}"
+            % (cstr(st["fp"]), cstr(st["table"]), cstr(st["match"]),
+               "; ".join(cstr(t) for t in st["types"]), "; ".join(st["proj"]), z(st["from"]), z(st["to"]),
+               "; ".join(st["out"]), "; ".join(g + "%N" for g in st["group"]), "; ".join(g + "%N" for g in st["order"]),
+               z(st["limit"]), st["agg1"], st["agg2"]))
+
+
+def attach_statements(cases):
+    """parse the statements recorded by the service stage; give every case the index of its template and its windows.
+    -> (templates [(tree, text)], problems)"""
+    templates, index, problems = [], {}, []
+    for c in cases:
+        c["_stmt"], c["_mw"], c["_lw"], c["_rw"] = -1, (0, 0), (0, 0), (0, 0)
+        svc, d = c.get("svc"), c.get("diff")
+        if not svc or not svc.get("sql"):
+            continue
+        texts = [svc["sql"]] + ([d["sql_l"], d["sql_r"]] if d and d.get("sql_l") and d.get("sql_r") else [])
+        sts = [parse_stmt(t) for t in texts]
+        if any(st is None for st in sts):
+            problems.append((c["id"], "statement outside the modelled fragment: %s" % texts[[i for i, st in enumerate(sts) if st is None][0]][:400]))
+            continue
+        if len(set(stmt_key(st) for st in sts)) != 1:
+            problems.append((c["id"], "the statements of one case differ in more than the time window"))
+            continue
+        k = stmt_key(sts[0])
+        if k not in index:
+            index[k] = len(templates)
+            templates.append((sts[0], texts[0]))
+        c["_stmt"] = index[k]
+        c["_mw"] = (sts[0]["from"], sts[0]["to"])
+        if len(sts) == 3:
+            c["_lw"], c["_rw"] = (sts[1]["from"], sts[1]["to"]), (sts[2]["from"], sts[2]["to"])
+    return templates, problems
+
+
+def w_rows(w, rows):
+    w.lst(rows, lambda m: (w.u(m["p"]), w.u(m["f"]), w.u(m["i"]), w.z(m["s"]), w.z(m["t"])))
+
+
+def w_diff(w, c):
+    d = c.get("diff")
+    present = bool(d) and not d.get("skipped")
+    w.b(present)
+    if not present:
+        d = {}
+    for a, b in (c.get("_lw", (0, 0)), c.get("_rw", (0, 0))):
+        w.z(a)
+        w.z(b)
+    w_rows(w, d.get("lrows"))
+    w.lst(d.get("lfuncs"), lambda f: (w.u(f[0]), w.z(as_tok(f[1]))))
+    w_rows(w, d.get("rrows"))
+    w.lst(d.get("rfuncs"), lambda f: (w.u(f[0]), w.z(as_tok(f[1]))))
+    err = d.get("err", "") or ("panic: " + d["panic"] if d.get("panic") else "")
+    w.z(0 if err == "" else 1 if err in ("left tree is not positive", "right tree is not positive") else 2)
+    w.zs(d.get("names"))
+    w.lst(d.get("levels"), w.zs)
+    for k in ("ticks", "maxself", "left", "right"):
+        w.z(d.get(k, 0))
+
+
 def w_merge(w, c):
     w.lst(c["mrows"], lambda m: (w.u(m["p"]), w.u(m["f"]), w.u(m["i"]), w.z(m["s"]), w.z(m["t"])))
     w.lst(c["mfuncs"], lambda f: (w.u(f[0]), w.z(as_tok(f[1]))))
@@ -102,6 +238,11 @@ def case_wire(c):
     w.lst(c["profs"], lambda p: w_prof(w, p))
     w.z(c["sel"])
     w_merge(w, c)
+    w.b(c.get("mode") == "grouped")
+    w.z(c.get("_stmt", -1))
+    w.z(c.get("_mw", (0, 0))[0])
+    w.z(c.get("_mw", (0, 0))[1])
+    w_diff(w, c)
     return w.out
 
 
@@ -114,7 +255,7 @@ def hash_wire(h):
     return w.out
 
 
-HEADER = ("From Coq Require Import List NArith ZArith Bool Uint63.\nFrom Qryn Require Import model.Pprof model.ProfTree model.ProfCase.\n"
+HEADER = ("From Coq Require Import List NArith ZArith Bool Uint63 String.\nFrom Qryn Require Import model.Pprof model.ProfTree model.ProfDiff model.ProfSql model.ProfCase.\n"
           "Import ListNotations.\n")
 
 
@@ -133,29 +274,43 @@ def wire_defs(prefix, wires):
     return "".join(txt)
 
 
-def eval_cases(ck, name, cases, hashes):
-    """-> (mismatch ids, {id: spec result 1|2}, hash mismatch ids, raw output)"""
+def eval_cases(ck, name, cases, hashes, templates=(), judge_text=False):
+    """-> (mismatch ids, {id: spec result}, hash mismatch ids, raw output)"""
     txt = (HEADER + wire_defs("c", [case_wire(c) for c in cases]) + wire_defs("h", [hash_wire(h) for h in hashes]) +
-           "Definition ALL := Eval vm_compute in all_results cs.\n"
-           "Definition D := Eval vm_compute in fst (fst (fst (fst ALL))).\nPrint D.\n"
-           "Definition M := Eval vm_compute in snd (fst (fst (fst ALL))).\nPrint M.\n"
-           "Definition V := Eval vm_compute in snd (fst (fst ALL)).\nPrint V.\n"
+           "".join("Definition stmt%d : merge_stmt := %s.\n" % (k, stmt_coq(st)) for k, (st, _) in enumerate(templates)) +
+           "Definition stmts : list merge_stmt := [%s].\n" % "; ".join("stmt%d" % k for k in range(len(templates))) +
+           "Definition ALL := Eval vm_compute in all_results stmts cs.\n"
+           "Definition D := Eval vm_compute in fst (fst (fst (fst (fst ALL)))).\nPrint D.\n"
+           "Definition M := Eval vm_compute in snd (fst (fst (fst (fst ALL)))).\nPrint M.\n"
+           "Definition V := Eval vm_compute in snd (fst (fst (fst ALL))).\nPrint V.\n"
            "Definition H := Eval vm_compute in hash_mismatches hs.\nPrint H.\n"
-           "Definition Y := Eval vm_compute in snd (fst ALL).\nPrint Y.\n"
-           "Definition HF := Eval vm_compute in snd ALL.\nPrint HF.\n")
+           "Definition Y := Eval vm_compute in snd (fst (fst ALL)).\nPrint Y.\n"
+           "Definition HF := Eval vm_compute in snd (fst ALL).\nPrint HF.\n"
+           "Definition DM := Eval vm_compute in fst (fst (snd ALL)).\nPrint DM.\n"
+           "Definition SQ := Eval vm_compute in snd (fst (snd ALL)).\nPrint SQ.\n"
+           "Definition SJ := Eval vm_compute in snd (snd ALL).\nPrint SJ.\n")
+    if judge_text:
+        # the parser is not trusted: the model's rendering of every parsed statement is the recorded text, byte for byte;
+        # and every template has the shape the theorems are about (stmt_ok)
+        txt += ("Definition RK := Eval vm_compute in [%s].\nPrint RK.\n" %
+                "; ".join("String.eqb (render_stmt stmt%d) %s" % (k, cstr(text)) for k, (_, text) in enumerate(templates)) +
+                "Definition OK := Eval vm_compute in map (stmt_ok 0) stmts.\nPrint OK.\n")
     rc, out = ck.coq_eval(name, txt)
     if rc != 0:
         return None, None, None, out
     flat = " ".join(out.split()).replace("%Z", "")
-    d = re.search(r"D = (?:\[(.*?)\]|nil)\s*: list Z", flat)
-    m = re.search(r"M = (?:\[(.*?)\]|nil)\s*: list Z", flat)
-    v = re.search(r"V = (?:\[(.*?)\]|nil)\s*: list \(Z \* Z\)", flat)
-    h = re.search(r"H = (?:\[(.*?)\]|nil)\s*: list Z", flat)
-    hf = re.search(r"HF = (?:\[(.*?)\]|nil)\s*: list Z", flat)
-    if not d or not m or not v or not h or not hf:
+    d = re.search(r"\bD = (?:\[(.*?)\]|nil)\s*: list Z", flat)
+    m = re.search(r"\bM = (?:\[(.*?)\]|nil)\s*: list Z", flat)
+    v = re.search(r"\bV = (?:\[(.*?)\]|nil)\s*: list \(Z \* Z\)", flat)
+    h = re.search(r"\bH = (?:\[(.*?)\]|nil)\s*: list Z", flat)
+    hf = re.search(r"\bHF = (?:\[(.*?)\]|nil)\s*: list Z", flat)
+    dm = re.search(r"\bDM = (?:\[(.*?)\]|nil)\s*: list Z", flat)
+    sq = re.search(r"\bSQ = (?:\[(.*?)\]|nil)\s*: list Z", flat)
+    sj = re.search(r"\bSJ = (-?\d+)\s*: Z", flat)
+    if not d or not m or not v or not h or not hf or not dm or not sq or not sj:
         return None, None, None, out
     ints = lambda s: [int(x) for x in re.findall(r"-?\d+", s or "")]
-    y = re.search(r"Y = \((\d+), (\d+), (\d+)\)", flat)
+    y = re.search(r"\bY = \((\d+), (\d+), (\d+)\)", flat)
     if y:
         ck.extra["hypothesis_checked"] = ck.extra.get("hypothesis_checked", 0) + int(y.group(1))
         ck.extra["hypothesis_holds"] = ck.extra.get("hypothesis_holds", 0) + int(y.group(2))
@@ -163,6 +318,14 @@ def eval_cases(ck, name, cases, hashes):
     if ints(d.group(1)):
         return None, None, None, "cases at positions %s of %s did not decode (wire format / rd_case out of step)" % (ints(d.group(1)), name)
     ck.extra.setdefault("hypothesis_fails_in_cases", []).extend(ints(hf.group(1)))
+    ck.extra.setdefault("diff_mismatch_cases", []).extend(ints(dm.group(1)))
+    ck.extra.setdefault("sql_judge_failed_cases", []).extend(ints(sq.group(1)))
+    ck.extra["cases_with_statements_judged"] = ck.extra.get("cases_with_statements_judged", 0) + int(sj.group(1))
+    if judge_text:
+        rk = re.search(r"\bRK = (?:\[(.*?)\]|nil)\s*: list bool", flat)
+        ok = re.search(r"\bOK = (?:\[(.*?)\]|nil)\s*: list bool", flat)
+        ck.extra["stmt_render_equal"] = re.findall(r"true|false", rk.group(1) or "") if rk else None
+        ck.extra["stmt_shape_ok"] = re.findall(r"true|false", ok.group(1) or "") if ok else None
     vv = ints(v.group(1))
     return ints(m.group(1)), dict(zip(vv[0::2], vv[1::2])), ints(h.group(1)), out
 
@@ -199,7 +362,7 @@ def has_empty_stack(c):
 
 def slim(c):
     """a replay object without the bulky observations"""
-    d = {k: c[k] for k in ("id", "kind", "class", "names", "types", "sel", "mode", "perm")}
+    d = {k: c.get(k) for k in ("id", "kind", "class", "names", "types", "sel", "mode", "perm")}
     d["profs"] = [{k: p.get(k, 0) for k in ("path", "st", "pad", "tagpad", "inl", "bad", "samples", "fail")} for p in (c["profs"] or [])]
     if c["kind"] == "rows":
         d["mrows"], d["mfuncs"] = c["mrows"], c["mfuncs"]
@@ -213,7 +376,7 @@ def run_corr(ck):
     ok, out = ck.coq_make(["model/ProfCase.vo"])
     if not ck.obligation("coq/model/ProfCase.v (case decoder and oracles) compiles", ok, out[-800:]):
         return
-    n = ck.n(250, 7500)
+    n = int(os.environ.get("C16_N", "0")) or ck.n(250, 7500)  # C16_N: development only
     cases = []
     corpus = os.path.join(HERE, "corpus", "C16", "cases.jsonl")
     if os.path.exists(corpus):
@@ -255,6 +418,26 @@ def run_corr(ck):
                       "case": slim(worst), "explanation": "blocks handed to the ClickHouse client for one request differ from each other / from the parser output "
                       "(profs[].fail = number of failed inserts before the accepted one); the tree stored on the retry is judged by the conservation oracles as well",
                       "replay": "write the case as one JSON line and run: proftree --cases <file>"})
+    # the same rows through the service: ProfService.MergeStackTraces over the scripted database must answer exactly what
+    # the direct MergeTrie/BFS/Total/MaxSelf calls gave (which Coq compares with the model below)
+    svc_bad = [c["id"] for c in tcases if not c.get("svc") or c["svc"].get("err") or c.get("panic") or
+               (c["svc"].get("names") or []) != (c.get("tnames") or []) or (c["svc"].get("levels") or []) != (c.get("levels") or []) or
+               [c["svc"].get("total")] != (c.get("total") or []) or [c["svc"].get("maxself")] != (c.get("maxself") or [])]
+    svc_bad = [i for i in svc_bad if not byid[i].get("panic")]
+    ck.obligation("ProfService.MergeStackTraces (PlanMergeTraces -> statement -> Scan -> getTree -> BFS -> response) returns the names, "
+                  "levels, total and maxSelf of the direct Tree.MergeTrie/BFS calls on the same rows: %d cases" % len(tcases),
+                  not svc_bad, "case ids %s" % svc_bad[:10])
+    if svc_bad:
+        worst = min((byid[i] for i in svc_bad), key=case_size)
+        ck.violation({"property": "C16", "kind": "the flame graph answered by ProfService.MergeStackTraces differs from Tree.MergeTrie/BFS on the same rows",
+                      "case": slim(worst), "service": {k: worst["svc"].get(k) for k in ("err", "names", "levels", "total", "maxself")},
+                      "direct": {k: worst.get(k) for k in ("tnames", "levels", "total", "maxself")},
+                      "replay": "write the case as one JSON line and run: proftree --cases <file>"})
+    templates, problems = attach_statements(tcases)
+    ck.extra["statement_templates"] = len(templates)
+    ck.obligation("every statement sent by the service for a flame graph is inside the modelled fragment (coq/model/ProfSql.v merge_stmt) "
+                  "and the statements of one case differ only in the time window: %d templates" % len(templates),
+                  not problems and len(templates) > 0, "; ".join("case %s: %s" % x for x in problems[:3]))
     bad_proj = [c["id"] for c in tcases if c["kind"] == "e2e" and not projection_agrees(c)]
     ck.obligation("harness projection of the stored rows (SQL emulation) agrees with an independent projection", not bad_proj,
                   "case ids %s" % bad_proj[:10])
@@ -269,7 +452,7 @@ def run_corr(ck):
     if cur:
         shards.append(cur)
     for k, sh in enumerate(shards):
-        m, v, h, out = eval_cases(ck, "C16_cases_%d" % k, sh, hashes if k == 0 else [])
+        m, v, h, out = eval_cases(ck, "C16_cases_%d" % k, sh, hashes if k == 0 else [], templates, judge_text=(k == 0))
         if m is None:
             ck.obligation("generated cases evaluated inside Coq", False, out[-2000:])
             return
@@ -284,6 +467,31 @@ def run_corr(ck):
                   "on every checked generated profile (%d of %d; it fails exactly on the recorded collision witnesses %s)" % (hh, hc, hyp_fail),
                   hc > 0 and not unexplained,
                   "cases %s: a collision of city.CH64>>9 inside one profile that is not a recorded witness: the theorem does not apply to that profile" % unexplained[:10])
+    rk, oks = ck.extra.get("stmt_render_equal"), ck.extra.get("stmt_shape_ok")
+    ck.obligation("the statement parser is faithful: render_stmt (coq/model/ProfSql.v) of every parsed template equals the text the "
+                  "service sent, byte for byte (%d templates)" % len(templates), rk is not None and len(rk) == len(templates) and all(x == "true" for x in rk), str(rk))
+    ck.obligation("every template has the shape the read-path theorems are about (stmt_ok: projection x.1,x.2,x.3, arrayFirst on the "
+                  "type name over x.4 -> .2/.3, GROUP BY the three ids with sum of both values, ORDER BY parent, LIMIT = node limit, groupArray)",
+                  oks is not None and len(oks) == len(templates) and all(x == "true" for x in oks), str(oks))
+    sqbad = sorted(set(ck.extra.get("sql_judge_failed_cases", [])))
+    nj = ck.extra.get("cases_with_statements_judged", 0)
+    ck.obligation("the statements evaluate (eval_merge_stmt on the rows the writer stored, time window included) to the rows handed to the "
+                  "service, for MergeStackTraces and both sides of RenderDiff: %d cases judged" % nj, not sqbad and nj > 0, "case ids %s" % sqbad[:10])
+    if sqbad:
+        worst = min((byid[i] for i in sqbad), key=case_size)
+        ck.violation({"property": "C16", "kind": "the statement of PlanMergeTraces does not compute the projection/grouping the flame graph is built from",
+                      "case": slim(worst), "statement": worst["svc"]["sql"],
+                      "explanation": "eval_merge_stmt (coq/model/ProfSql.v) of the parsed statement on the stored rows of this case differs from "
+                      "group-by-(parent,function,node) sums of the rows projected on the selected sample type",
+                      "replay": "write the case as one JSON line and run: proftree --cases <file>"})
+    dmm = sorted(set(ck.extra.get("diff_mismatch_cases", [])))
+    ndiff = sum(1 for c in tcases if c.get("diff") and not c["diff"].get("skipped"))
+    nrefused = sum(1 for c in tcases if c.get("diff") and "not positive" in (c["diff"].get("err") or ""))
+    ck.extra["diff_views"] = ndiff
+    ck.extra["diff_views_refused_not_positive"] = nrefused
+    ck.obligation("correspondence: render_diff (assertPositive, synchronizeNames, mergeNodes, computeFlameGraphDiff, diffToFlameBearer) = "
+                  "ProfService.RenderDiff on %d diff views (%d refused for a negative self value)" % (ndiff, nrefused),
+                  not dmm and ndiff > 0, "case ids %s" % dmm[:10])
     ck.obligation("city16 (model of city.CH64 on 16 bytes) = implementation on %d buffers" % len(hashes), not hm, "ids %s" % hm[:10])
     ck.obligation("correspondence: post_process / merge_trie / bfs = implementation on %d cases" % len(tcases), not mism,
                   "mismatching case ids: %s" % mism[:10])
